@@ -415,8 +415,43 @@ class StmtMixin:
                 return self.exec_block(s.orelse, st) if s.orelse else [(NORMAL, st)]
         spec = self.loop_spec(s)
         if spec is None:
-            raise EngineError(f'while loop without invariant at line {s.lineno}')
+            return self.unroll_unknown_while(s, st)
         return self.exec_loop_with_invariant(s, st, spec, kind='while')
+
+    UNKNOWN_LOOP_BOUND = 2
+
+    def unroll_unknown_while(self, s, st):
+        """A `while` loop that has no loop contract (typically: a loop the code did not have when the contracts were written).
+        It is explored for at most UNKNOWN_LOOP_BOUND iterations; paths that would need more are cut.  Every path explored this way
+        is a real path of the code, so an obligation that FAILS on one is a real failure; but nothing is proved about the root
+        (it is recorded in `bounded_unknown_loops` and reported as out of reach / undecided when nothing fails)."""
+        if s.orelse:
+            raise EngineError(f'while/else without invariant at line {s.lineno}')
+        self.bounded_unknown_loops.add(s.lineno)
+        results, live = [], [st]
+        for i in range(self.UNKNOWN_LOOP_BOUND + 1):
+            nxt = []
+            for s0 in live:
+                for r in self.eval(s.test, s0):
+                    if r.kind == 'raise':
+                        results.append((raise_out(r.val), r.st))
+                        continue
+                    for taken, s1 in self.branch(r.st, self.truthy(r.val, r.st)):
+                        if not taken:
+                            results.append((NORMAL, s1))
+                        elif i == self.UNKNOWN_LOOP_BOUND:
+                            pass        # would need one more iteration: path cut (bounded)
+                        else:
+                            for bo, s2 in self.exec_block(s.body, s1):
+                                if bo[0] in ('normal', 'continue'):
+                                    nxt.append(s2)
+                                elif bo[0] == 'break':
+                                    results.append((NORMAL, s2))
+                                else:
+                                    results.append((bo, s2))
+            live = nxt
+            self.paths_guard(len(results) + len(live))
+        return results
 
     def ex_For(self, s, st):
         def fin(itv, s1):
